@@ -542,6 +542,9 @@ func genCase(r *rand.Rand) *muCase {
 			if iv.Continue && r.Intn(2) == 0 {
 				iv.Thread = "e0ffe42b"
 			}
+			if r.Intn(5) == 0 {
+				iv.Bare, iv.Password, iv.Continue, iv.Thread, iv.ToForm = true, "", false, "", false
+			}
 			mc.Steps = append(mc.Steps, step{Op: "invite", Inv: iv})
 		case 2:
 			if r.Intn(2) == 0 {
